@@ -6,11 +6,8 @@ CONSTANTS
   FixProto = FALSE
   FixSetter = FALSE
   FixRollback = FALSE
-  H = 3
+  H = 9
   CatSel = {1, 2, 3, 4, 5, 6, 7, 8, 9, 10, 11}
-  Wide = FALSE
-INVARIANT TypeOK
-INVARIANT NoClobber
-INVARIANT EsInv
+  Wide = TRUE
 INVARIANT Emit
 CHECK_DEADLOCK FALSE
